@@ -126,6 +126,30 @@ Theorem C07_finish_only_live :
 Proof. exact finish_only_live. Qed.
 Print Assumptions C07_finish_only_live.
 
+(** ** ... not in the store either, and no incarnation ever comes back *)
+Theorem C07_store_tight_all : forall st ops, Inv st -> store_tight (exec st ops).
+Proof. exact store_tight_all. Qed.
+Print Assumptions C07_store_tight_all.
+
+Theorem C07_store_tight_b_correct : forall st, store_tight_b st = true <-> store_tight st.
+Proof. exact store_tight_b_correct. Qed.
+Print Assumptions C07_store_tight_b_correct.
+
+Theorem C07_incarnation_never_returns :
+  forall st ops c, Inv st -> c < st_ninc st -> (forall f, In f (st_fabs st) -> f_inc f <> c) ->
+    forall f, In f (st_fabs (exec st ops)) -> f_inc f <> c.
+Proof. exact incarnation_never_returns. Qed.
+Print Assumptions C07_incarnation_never_returns.
+
+(** after RemoveFabric answered OK neither a stored copy of the fabric nor a stored record of
+    its index is left: nothing an expiry or a restart could reload *)
+Theorem C07_removed_not_reloadable :
+  forall st sid i f st', Inv st -> fget i (st_fabs st) = Some f ->
+    step st (ORemove sid i) = (st', StOk) ->
+    fget i (st_kvfabs st') = None /\ (forall r, In r (st_kvrecs st') -> r_fab r <> i).
+Proof. exact removed_not_reloadable. Qed.
+Print Assumptions C07_removed_not_reloadable.
+
 (** ** Use *)
 (** a request answered OK travelled on a usable session of the current incarnation and
     touched no other fabric index *)
@@ -263,4 +287,17 @@ Example finish_after_remove_is_void :
   tight_b (fst (step (exec (init_state 2 true) ops) (OFinishResume 5))) = true /\
   (* without the removal the slot is there and the record is rotated *)
   snd (step (exec (init_state 2 true) [OEstablish 1; OResumeBegin 1]) (OFinishResume 5)) = StOk.
+Proof. vm_compute. repeat split; reflexivity. Qed.
+
+(** the fail-safe is armed over the CASE session of the committed fabric 2, fabric 2 is
+    removed on that session, then the timer fires: index 2 stays empty (no stored copy is
+    left to resurrect) and nothing refers to it, in RAM or in the store *)
+Example remove_then_expiry_stays_removed :
+  let ops := [OArm 3; ORemove 3 2; OTimeout] in
+  map fst (snd (run (init_state 2 true) ops)) = [StOk; StOk; StOk] /\
+  has_fab (st_fabs (exec (init_state 2 true) ops)) 2 = false /\
+  has_fab (st_kvfabs (exec (init_state 2 true) ops)) 2 = false /\
+  store_tight_b (exec (init_state 2 true) ops) = true /\
+  tight_b (exec (init_state 2 true) ops) = true /\
+  monitor (init_state 2 true) (combine ops (snd (run (init_state 2 true) ops))) = [].
 Proof. vm_compute. repeat split; reflexivity. Qed.
